@@ -376,6 +376,17 @@ def run(ctx):
     ctx.model("MC_TaxonNamespace", "MC_TaxonNamespace_quick.cfg" if quick else "MC_TaxonNamespace_thorough.cfg")
     # ... and must find the shipped rendering rule violating RenderExact (non-vacuity)
     ctx.model("MC_TaxonNamespace", "AsShipped_TaxonNamespace.cfg", expect_violation="RenderExact", count=False)
+    # 1b. Apalache discharges the accession discipline as an INDUCTIVE invariant (histories of any length, not only
+    # to TLC's bounded depth) on the order-free abstraction TaxonNamespaceInd.tla; two wrong designs (the mechanisms
+    # of seeded changes C10-s1 and C10-t2) must be refuted
+    ctx.apalache("TaxonNamespaceInd", [
+        ("Init", "IndInv", 0, "Next", "NoError"),
+        ("IndInit", "IndInv", 1, "Next", "NoError"),
+        ("IndInit", "StableStep", 1, "Next", "NoError"),
+        ("IndInit", "RoundTrip", 0, "Next", "NoError"),
+        ("IndInit", "StableStep", 1, "NextReleasing", "Error"),
+        ("IndInit", "IndInv", 1, "NextClearResets", "Error"),
+    ])
     # 2. spec -> code: one real execution per model transition
     cases, nedges = model_cases(ctx, "MC_TaxonNamespace_replay_quick.cfg" if quick else "MC_TaxonNamespace_replay_thorough.cfg")
     # 3. random histories on larger namespaces
